@@ -104,13 +104,15 @@ func (sc *Scenario) hasBlockShut() bool {
 	return false
 }
 
-// pairAt: rounds i and i+1 really run concurrently (both programmatic, no signal inside them)
+// pairAt: rounds i and i+1 are made to overlap: while round i sits in its first hook, round i+1 is
+// triggered. Programmatic + programmatic, programmatic + SIGHUP, SIGHUP + programmatic (two SIGHUP rounds
+// cannot overlap: the event loop handles one signal at a time); no stop signal inside either of them.
 func (sc *Scenario) pairAt(i int) bool {
 	if i < 0 || i+1 >= len(sc.Rounds) || sc.NReload == 0 {
 		return false
 	}
 	a, b := sc.Rounds[i], sc.Rounds[i+1]
-	return a.Pair && a.Trig == 0 && b.Trig == 0 && a.CancelAt < 0 && b.CancelAt < 0 && (i == 0 || !sc.pairAt(i-1))
+	return a.Pair && !(a.Trig == 1 && b.Trig == 1) && a.CancelAt < 0 && b.CancelAt < 0 && (i == 0 || !sc.pairAt(i-1))
 }
 
 func (sc *Scenario) needsSerial() bool {
@@ -252,6 +254,20 @@ func (l *lockedBuf) contains(s string) bool {
 
 const startupMarker = "verif-c09-startup-marker"
 
+// A tree that is broken in a way that makes cases slow (a port that accepts but is not served while hooks
+// probe it, a Start that never returns) is reported from the cases run so far: after a few such events
+// the remaining cases are skipped, so that the verdict comes in well under the quick budget.
+var (
+	slowProbes atomic.Int64
+	hungCases  atomic.Int64
+	giveUp     atomic.Bool
+)
+
+const (
+	slowProbeLimit = 6
+	hungCaseLimit  = 3
+)
+
 // stallEpoch counts the scheduling stalls of this process: a goroutine that sleeps 50 ms at a time and
 // finds itself woken more than 400 ms late. A frozen or badly starved machine (the sandbox shares its
 // cores) makes every timeout of the harness and of the application meaningless, so a case during which
@@ -319,6 +335,8 @@ type runner struct {
 	notes   []string
 	client  *http.Client // talks to the application (TLS as the entry point requires)
 	plain   *http.Client // talks to the metrics server
+
+	probeClient *http.Client // like client, with the probe timeout
 }
 
 func (r *runner) ev(s string) {
@@ -440,11 +458,28 @@ func (r *runner) newTransport() *http.Transport {
 }
 
 // probeApp: does *this* application serve HTTP on its port right now?
+//
+// "Open" is decided at the TCP level first: a refused connect is a closed port (the normal answer before
+// the listener exists, and an immediate one). A port that accepts but does not answer within the probe
+// timeout (bound, nobody serving: the kernel completes handshakes) counts as open — and is counted in
+// slowProbes: on a correct tree that never happens, on a broken one every such probe costs a timeout.
 func (r *runner) probeApp() bool {
+	c, err := net.DialTimeout("tcp", fmt.Sprintf("127.0.0.1:%d", r.appPort), 2*time.Second)
+	if err != nil {
+		return false
+	}
+	c.Close()
 	req, _ := http.NewRequest("GET", r.appURL("/__probe"), nil)
 	req.Close = true
-	resp, err := r.client.Do(req)
+	resp, err := r.probeClient.Do(req)
 	if err != nil {
+		var ne net.Error
+		if errors.As(err, &ne) && ne.Timeout() {
+			if slowProbes.Add(1) >= slowProbeLimit {
+				giveUp.Store(true)
+			}
+			return true
+		}
 		return false
 	}
 	defer resp.Body.Close()
@@ -637,10 +672,14 @@ func (r *runner) reloadHook(i int) func(context.Context) error {
 		r.ev(fmt.Sprintf("l %d %d", round, i))
 		if round >= 0 && round < len(r.sc.Rounds) {
 			rd := r.sc.Rounds[round]
-			if r.sc.pairAt(round) && prog && i == 0 {
-				r.pairRendezvous(round + 1)
+			if r.sc.pairAt(round) && i == 0 {
+				if r.sc.Rounds[round+1].Trig == 1 {
+					r.pairRendezvousHup(round + 1)
+				} else {
+					r.pairRendezvous(round + 1)
+				}
 			}
-			if r.sc.pairAt(round-1) && prog && i == 0 {
+			if r.sc.pairAt(round-1) && i == 0 {
 				r.pairIn.Store(true)
 			}
 			if rd.CancelAt == i {
@@ -707,6 +746,31 @@ func (r *runner) pairRendezvous(b int) {
 		r.notes = append(r.notes, "pair-unconfirmed")
 	}
 	r.pairDone = done
+}
+
+// pairRendezvousHup (inside the first hook of the programmatic round A): send SIGHUP, so that the event
+// loop starts round B, and wait until the Start goroutine is parked on the reload mutex — or B has entered
+// a hook, which is the overlap the property forbids. The wait is bounded: on correct code B cannot begin
+// before A is through, so running into the bound can only make the harness miss an overlap, never
+// report one that is not there.
+func (r *runner) pairRendezvousHup(b int) {
+	if r.abandoned.Load() {
+		return
+	}
+	r.hupRound.Store(int64(b))
+	_ = syscall.Kill(os.Getpid(), syscall.SIGHUP)
+	dl := time.Now().Add(400 * time.Millisecond)
+	for time.Now().Before(dl) {
+		if r.pairIn.Load() || r.started() {
+			return
+		}
+		blk := goroutineBlock(r.startGID.Load())
+		if strings.Contains(blk, ").Reload(") && (strings.Contains(blk, "Mutex") || strings.Contains(blk, "semacquire")) {
+			return
+		}
+		time.Sleep(200 * time.Microsecond)
+	}
+	r.notes = append(r.notes, "pair-unconfirmed")
 }
 
 func (r *runner) callReload(round int) (res int) {
@@ -942,6 +1006,7 @@ type obsT struct {
 func (r *runner) run() obsT {
 	sc := r.sc
 	r.client = &http.Client{Transport: r.newTransport(), Timeout: 5 * time.Second}
+	r.probeClient = &http.Client{Transport: r.newTransport(), Timeout: 1500 * time.Millisecond}
 	r.plain = &http.Client{Transport: &http.Transport{DisableKeepAlives: true}, Timeout: 5 * time.Second}
 	r.startDone = make(chan struct{})
 	r.abandonCh = make(chan struct{})
@@ -1053,6 +1118,9 @@ func (r *runner) run() obsT {
 		// left of this case from sending signals into later cases
 		r.abandoned.Store(true)
 		close(r.abandonCh)
+		if o.Discard == "" && hungCases.Add(1) >= hungCaseLimit {
+			giveUp.Store(true)
+		}
 		r.cancelFn()
 		for k := range r.reqs {
 			go r.releaseReq(k, false)
@@ -1232,18 +1300,41 @@ func (r *runner) controller() {
 			case <-time.After(10 * time.Second):
 				r.discard = "SIGHUP round did not complete"
 			}
+			if sc.pairAt(i) {
+				// the first hook of this round has started the programmatic round i+1
+				if r.pairDone != nil {
+					waitCh(r.pairDone, 10*time.Second)
+				}
+				i++
+			}
 			// the next round must not start before Reload has returned on the Start goroutine
 			if !r.started() && !r.waitParkedInSelect() {
 				r.discard = "could not see the Start goroutine back in its select loop"
 			}
 			continue
 		}
+		hupNext := sc.pairAt(i) && sc.Rounds[i+1].Trig == 1
+		if hupNext && !r.waitParkedInSelect() {
+			// the first hook of this round is going to send SIGHUP: the subscription must be in place
+			r.discard = "could not see the Start goroutine in its select loop"
+			break
+		}
 		r.roundRes[i] = r.callReload(i)
 		if sc.pairAt(i) {
-			if r.pairDone != nil {
+			if hupNext {
+				select {
+				case <-r.roundDone[i+1]:
+				case <-r.startDone:
+				case <-time.After(10 * time.Second):
+					r.discard = "SIGHUP round did not complete"
+				}
+				if !r.started() && !r.waitParkedInSelect() {
+					r.discard = "could not see the Start goroutine back in its select loop"
+				}
+			} else if r.pairDone != nil {
 				waitCh(r.pairDone, 10*time.Second)
 			}
-			i++ // round i+1 ran concurrently
+			i++ // round i+1 was triggered while round i sat in its first hook
 		}
 	}
 	// 3. the stop signal
@@ -1474,6 +1565,10 @@ func main() {
 	hungBefore := false
 	for _, j := range jobs {
 		if j.sc.needsSerial() {
+			if giveUp.Load() {
+				j.o = obsT{Discard: "skipped: the tree makes cases slow (probe timeouts / hangs), reporting from the cases run so far"}
+				continue
+			}
 			if hungBefore {
 				// what is left of a case that never returned may still ignore or receive the process-wide
 				// SIGHUP: later cases of this phase would not be reproducible
@@ -1500,6 +1595,10 @@ func main() {
 		go func() {
 			defer wg.Done()
 			defer func() { <-sem }()
+			if giveUp.Load() {
+				j.o = obsT{Discard: "skipped: the tree makes cases slow (probe timeouts / hangs), reporting from the cases run so far"}
+				return
+			}
 			j.o = runScenario(j.id, j.sc)
 		}()
 	}
